@@ -93,6 +93,22 @@ theorem padMacGo_spec (sep : Char) (h0 : sep ≠ '0') :
       have : 5 - a.count sep = 0 := by omega
       simp [this]
 
+/-! ### broadcast address, bit by bit -/
+
+theorem ipv4Broadcast_bits (a n : Nat) (ha : a < 2 ^ 32) (i : Nat) :
+    (ipv4Broadcast a n).testBit i = (decide (i < 32 - n) || a.testBit i) := by
+  unfold ipv4Broadcast prefixMask
+  simp only [Nat.testBit_or, Nat.testBit_and, Nat.testBit_xor, Nat.testBit_two_pow_sub_one]
+  by_cases h1 : i < 32 - n
+  · simp [h1]
+  · by_cases h2 : i < 32
+    · simp [h1, h2]
+    · have : a.testBit i = false := by
+        apply Nat.testBit_lt_two_pow
+        calc a < 2 ^ 32 := ha
+          _ ≤ 2 ^ i := Nat.pow_le_pow_right (by decide) (by omega)
+      simp [h1, h2, this]
+
 /-! ### sorted-subset check (both lists are emitted sorted by the translator) -/
 
 /-- `xs ⊆ ys` for two lists sorted the same way: one pass -/
